@@ -82,7 +82,7 @@ theorem findModuleByPrefix_foreign {reg : Registry} {root : Mod} {pfx : String} 
 
 /-- **Completeness of the lookup**: a name that binds (in the sense of the specification) is found. -/
 theorem lookup_not_error (env : Env) (hid : SeqId env.reg) (hlink : Linked env) (himp : ImportsDistinct env.reg)
-    (root : Mod) (hroot : root ∈ env.reg.mods) (scope : List Stmt) (t : Stmt)
+    (root : Mod) (hroot : root ∈ env.reg.mods) (hsch : PartOfSchema env.reg root) (scope : List Stmt) (t : Stmt)
     {m : Mod} {td : Stmt} {sc : List Stmt} (hb : Binds env.reg root scope t.arg m td sc) (e : Err) :
     lookup env root scope t ≠ .error e := by
   intro h
@@ -107,7 +107,7 @@ theorem lookup_not_error (env : Env) (hid : SeqId env.reg) (hlink : Linked env) 
             rw [this] at htd
             cases htd
           | moduleLevel m' td' _ _ _ hunit htd =>
-            obtain ⟨r, hr⟩ := findLocalModules_complete env hid hlink (splitPrefix t.arg).2 root hroot m hunit
+            obtain ⟨r, hr⟩ := findLocalModules_complete env hid hlink (splitPrefix t.arg).2 root hroot hsch m hunit
               (by unfold baseName at htd; exact List.ne_nil_of_mem htd)
             rw [hr] at hnf
             cases hnf
@@ -127,7 +127,7 @@ theorem lookup_not_error (env : Env) (hid : SeqId env.reg) (hlink : Linked env) 
         split at h
         · cases h
         · rename_i hnf
-          obtain ⟨r, hr⟩ := findInModule_complete env hid hlink (splitPrefix t.arg).2 ext hextm m hstar
+          obtain ⟨r, hr⟩ := findInModule_complete env hid hlink (splitPrefix t.arg).2 ext hextm (partOfSchema_findModule_false hf) m hstar
             (by unfold baseName at htd; exact List.ne_nil_of_mem htd)
           rw [hr] at hnf
           cases hnf
@@ -135,7 +135,7 @@ theorem lookup_not_error (env : Env) (hid : SeqId env.reg) (hlink : Linked env) 
           exact absurd hoof (findInModule_start env _ ext hextm)
 
 theorem lookup_complete (env : Env) (hid : SeqId env.reg) (hlink : Linked env) (himp : ImportsDistinct env.reg)
-    (root : Mod) (hroot : root ∈ env.reg.mods) (scope : List Stmt) (t : Stmt)
+    (root : Mod) (hroot : root ∈ env.reg.mods) (hsch : PartOfSchema env.reg root) (scope : List Stmt) (t : Stmt)
     {m : Mod} {td : Stmt} {sc : List Stmt} (hb : Binds env.reg root scope t.arg m td sc) :
     ∃ src r, lookup env root scope t = .typedef src r := by
   cases hl : lookup env root scope t with
@@ -144,7 +144,7 @@ theorem lookup_complete (env : Env) (hid : SeqId env.reg) (hlink : Linked env) (
     rw [binds_not_builtin hb] at this
     cases this
   | typedef src r => exact ⟨src, r, rfl⟩
-  | error e => exact absurd hl (lookup_not_error env hid hlink himp root hroot scope t hb e)
+  | error e => exact absurd hl (lookup_not_error env hid hlink himp root hroot hsch scope t hb e)
 
 /-! ## What the lookup finds binds (the proof of `Goyang.Props.C09.resolve_binds`, available to lemma files) -/
 
@@ -335,7 +335,7 @@ structure Standing (env : Env) (s0 : Site) : Prop where
 exhausted budget): whatever errors `Type.resolve` returns for it are restriction errors. -/
 theorem resolve_noBind (env : Env) (s0 : Site) (hS : Standing env s0) :
     ∀ (fuel : Nat) (root : Mod) (scope : List Stmt) (t : Stmt) (stack : List TypeKey),
-      InSet env root scope t → t.kw = "type" → Resolvable env.reg root scope t →
+      InSet env root scope t → PartOfSchema env.reg root → t.kw = "type" → Resolvable env.reg root scope t →
       UsesStar env.reg s0 (root, scope, t) → StackOk env.reg s0 (root, scope, t) stack →
       stack.Nodup → (∀ k ∈ stack, k ∈ allTypeKeys env.reg) →
       (allTypeKeys env.reg).length + 1 ≤ fuel + stack.length →
@@ -343,11 +343,11 @@ theorem resolve_noBind (env : Env) (s0 : Site) (hS : Standing env s0) :
   intro fuel
   induction fuel with
   | zero =>
-    intro root scope t stack _ _ _ _ _ hnd hsub hlen
+    intro root scope t stack _ _ _ _ _ _ hnd hsub hlen
     have := nodup_subset_length stack (allTypeKeys env.reg) hnd hsub
     omega
   | succ fuel ih =>
-    intro root scope t stack hin hkw hres hs0 hst hnd hsub hlen
+    intro root scope t stack hin hsch hkw hres hs0 hst hnd hsub hlen
     obtain ⟨hroot, ht, hscope⟩ := hin
     have hacc := resolvable_acc' hres (hS.unamb.step hs0)
     by_cases hc : stack.contains (typeKey root t) = true
@@ -376,7 +376,7 @@ theorem resolve_noBind (env : Env) (s0 : Site) (hS : Standing env s0) :
           | builtin _ hm => exact hm ut hut
           | derived _ _ _ _ _ _ _ hm => exact hm ut hut
         have huse : Uses env.reg (root, scope, t) (root, t :: scope, ut) := Uses.member ut hut
-        refine ih root (t :: scope) ut _ ⟨hroot, child_below ht (all_mem_subs hut), ?_⟩ (kw_of_all hut) hmres
+        refine ih root (t :: scope) ut _ ⟨hroot, child_below ht (all_mem_subs hut), ?_⟩ hsch (kw_of_all hut) hmres
           (UsesStar.tail hs0 huse) (hst.push hs0 huse) hnd' hsub' hlen'
         intro s hs
         cases hs with
@@ -388,14 +388,15 @@ theorem resolve_noBind (env : Env) (s0 : Site) (hS : Standing env s0) :
         rw [resolve_builtin hc' hl]
         exact overlayType_noBind hmembers
       | derived m td sc tt hbind htt hbase hm =>
-        obtain ⟨src, r, hl⟩ := lookup_complete env hS.seqId hS.linked hS.imports root hroot scope t hbind
+        obtain ⟨src, r, hl⟩ := lookup_complete env hS.seqId hS.linked hS.imports root hroot hsch scope t hbind
         have hb' := lookup_binds env root scope t (type_not_scope hkw) src r hl
         obtain ⟨e1, e2, e3⟩ := hS.unamb _ hs0 _ _ _ _ _ _ hbind hb'
         subst e1 e2 e3
         obtain ⟨hr1, hr2, hr3⟩ := lookup_inSet ⟨hroot, ht, hscope⟩ hl
         have huse : Uses env.reg (root, scope, t) (r.root, r.td :: r.scope, tt) := Uses.base r.root r.td r.scope tt hbind htt
         have hbaseNB : NoBind (resolveTypeF env fuel r.root (r.td :: r.scope) tt (typeKey root t :: stack)).errs := by
-          refine ih r.root (r.td :: r.scope) tt _ ⟨hr1, child_below hr2 (one_mem_subs htt), ?_⟩ (kw_of_one htt) hbase
+          refine ih r.root (r.td :: r.scope) tt _ ⟨hr1, child_below hr2 (one_mem_subs htt), ?_⟩
+            (binds_partOfSchema hsch hbind) (kw_of_one htt) hbase
             (UsesStar.tail hs0 huse) (hst.push hs0 huse) hnd' hsub' hlen'
           intro s hs
           cases hs with
